@@ -104,6 +104,29 @@ def lattice_plane(rng):
             return [[c << sh for c in p] for p in pts]
 
 
+def vertical_plane(rng):
+    """four exactly coplanar lattice points in a plane that contains a coordinate direction (u in a coordinate plane, v along the
+    third axis): every 2x2 minor of the expansion along that axis cancels exactly, so the filter must rely on the magnitude of
+    the PRODUCTS, not of the differences (case split of the error-bound lemma: |a*b - c*d| << |a*b| + |c*d|)"""
+    L = rng.choice([10, 16, 24, 32, 40, 52])
+    n = 1 << L
+    span = max(2, n >> 4)
+    ax = rng.below(3)
+    while True:
+        o = [n // 4 + rng.below(n // 2) for _ in range(3)]
+        u = [rng.below(2 * span // 7 + 1) - span // 7 for _ in range(3)]
+        u[ax] = 0
+        v = [0, 0, 0]
+        v[ax] = rng.below(2 * span // 7 + 1) - span // 7
+        pts = []
+        for _ in range(4):
+            i, j = rng.below(7) - 3, rng.below(7) - 3
+            pts.append([o[k] + i * u[k] + j * v[k] for k in range(3)])
+        if all(0 <= c < n for p in pts for c in p):
+            sh = 52 - L
+            return [[c << sh for c in p] for p in pts]
+
+
 SPHERE_VECS = {
     9: [(3, 0, 0), (1, 2, 2)],
     49: [(7, 0, 0), (2, 3, 6)],
@@ -222,7 +245,7 @@ def threshold(rng, pts):
     return pts
 
 
-OMODES = ["random", "lattice-coplanar", "coplanar+ulps", "rounded-coplanar", "special", "filter-threshold"]
+OMODES = ["random", "lattice-coplanar", "coplanar+ulps", "rounded-coplanar", "special", "filter-threshold", "axis-plane+ulps"]
 IMODES = ["random", "lattice-cospherical", "cospherical+ulps", "rounded-cospherical", "special", "coplanar-base", "filter-threshold"]
 
 
@@ -237,6 +260,9 @@ def gen_orient(rng, mode):
         return near_plane(rng)
     if mode == 5:
         return threshold(rng, near_plane(rng) if rng.below(2) else lattice_plane(rng))
+    if mode == 6:
+        v = vertical_plane(rng)
+        return v if rng.below(4) == 0 else perturb(rng, v)
     return special(rng, 4)
 
 
